@@ -229,6 +229,7 @@ func c19a(c *Ctx) {
 	}
 	nCalls, nStores := 0, 0
 	var judge func(e armEnv, depth int)
+	var judgeField func(e armEnv, f, vt string, at ssa.Instruction, via string)
 	judge = func(e armEnv, depth int) {
 		fn := e.f
 		// B. single-character constructor call sites
@@ -280,7 +281,26 @@ func c19a(c *Ctx) {
 					// whatever the caller computed; the typestate does not follow them through the
 					// parameters, so such a constructor (other than the single-character one, whose
 					// call sites clause B judges) is reported as undecided rather than passed over
-					c.Unk(fmt.Sprintf("%s/helper[%s]/plain-constructor", e.prefix, g.Name()), c.W.Pos(ci.Pos()), "the token of this arm is built by the plain function "+g.Name()+" from values its caller computes: the width-fact typestate does not judge positions passed as parameters (only the single-character constructor's call sites are judged)")
+					// a plain constructor (newTwoCharToken(typ, a, b, line, char, utf8)): the fields of
+					// the token it returns are terms over its parameters; rewritten into the caller's
+					// terms at this call they are judged like stores made here
+					var fl map[string]string
+					if rets := returnsOf(g); len(rets) == 1 && len(rets[0].Results) == 1 {
+						_, fl = c.withFields(g, c.term(g, rets[0].Results[0]))
+					}
+					if fl == nil || len(g.Blocks) != 1 {
+						c.Unk(fmt.Sprintf("%s/helper[%s]/plain-constructor", e.prefix, g.Name()), c.W.Pos(ci.Pos()), "the token of this arm is built by the plain function "+g.Name()+", whose result cannot be read as a single token literal over its parameters: its positions are not judged")
+						continue
+					}
+					for _, f := range []string{"LineNumber", "EndLineNumber", "StartCharIndex", "StartUtf8CharIndex", "EndCharIndex", "EndUtf8CharIndex"} {
+						ft, has := fl[f]
+						if !has || ft == "" || ft == "zero" {
+							c.Bad(fmt.Sprintf("%s/%s.%s", e.prefix, g.Name(), f), c.W.Pos(ci.Pos()), "the token built by "+g.Name()+" has no "+f)
+							continue
+						}
+						nStores++
+						judgeField(e, f, c.substParams(fn, ci, ft), in, g.Name()+".")
+					}
 					continue
 				}
 				key := fmt.Sprintf("%s/helper[%s]", e.prefix, g.Name())
@@ -322,10 +342,17 @@ func c19a(c *Ctx) {
 				return
 			}
 			nStores++
-			vt := c.term(fn, st.Val)
+			judgeField(e, f, c.term(fn, st.Val), st, "")
+		})
+	}
+	// judgeField: one position field of a token under construction is given the value vt (a term
+	// of e.f) at instruction `at` — by a store, or by a plain constructor called there
+	judgeField = func(e armEnv, f, vt string, at ssa.Instruction, via string) {
+		{
+			st := at
 			cu := parseCounter(vt)
 			arm, hasArm := e.armOf(st.Block())
-			key := fmt.Sprintf("%s/%s[%s]", e.prefix, f, armName(arm, hasArm))
+			key := fmt.Sprintf("%s/%s%s[%s]", e.prefix, via, f, armName(arm, hasArm))
 			pos := c.W.Pos(st.Pos())
 			if !cu.ok {
 				c.Bad(key, pos, f+" is set to "+pretty(vt)+", which is not one of the lexer's position counters")
@@ -380,7 +407,7 @@ func c19a(c *Ctx) {
 			default:
 				c.Bad(key, pos, "end column "+pretty(vt)+" does not follow the position algebra")
 			}
-		})
+		}
 	}
 	judge(armEnv{
 		f:      fn,
